@@ -332,16 +332,7 @@ func (f *fields) add(v value) {
 func (f *fields) setAt(idx int, parent, v value) {
 	l := len(f.a)
 	if idx >= l {
-		verifGrow(l, idx+1)
-		if idx < cap(f.a) {
-			// room made by append (or left by a removal): every slot between
-			// the old end and idx is assigned below
-			f.a = f.a[:idx+1]
-		} else {
-			tmp := make([]value, idx+1)
-			copy(tmp, f.a)
-			f.a = tmp
-		}
+		f.grow(idx + 1)
 
 		// the elements filling the gap below idx exist because of v: they
 		// report the source v was read from
@@ -358,6 +349,25 @@ func (f *fields) setAt(idx int, parent, v value) {
 	f.a[idx] = v
 }
 
+// grow makes the list n elements long (n > len). The capacity the list has
+// already is used, beyond that it is at least doubled: adding elements one by
+// one costs linear time in total, not a copy of the whole list per element.
+// Every slot between the old end and n is assigned by the caller.
+func (f *fields) grow(n int) {
+	if n <= cap(f.a) {
+		f.a = f.a[:n]
+		return
+	}
+	verifGrow(len(f.a), n)
+	c := 2 * cap(f.a)
+	if c < n {
+		c = n
+	}
+	tmp := make([]value, n, c)
+	copy(tmp, f.a)
+	f.a = tmp
+}
+
 func (f *fields) append(parent value, a []value) {
 	l := len(f.a)
 	count := len(a)
@@ -366,8 +376,8 @@ func (f *fields) append(parent value, a []value) {
 	}
 
 	if need := l + count; need > cap(f.a) {
-		// make room for all new elements at once: growing by one element at a
-		// time copies the list once per element
+		// make room for all new elements at once
+		verifGrow(l, need)
 		tmp := make([]value, l, need)
 		copy(tmp, f.a)
 		f.a = tmp
